@@ -28,7 +28,15 @@ def shrink_compile(f):
     named = f[2][5:] if f[2].startswith("name=") else None
     for i in range(len(pipes)):
         if pipes[i][0] != named and len(pipes) > 1:
-            yield emit(pipes[:i] + pipes[i + 1:], decls)
+            # later pipelines may be built from the entry points of pipeline i: renumber or drop the reference
+            rest = []
+            for p in pipes[:i] + pipes[i + 1:]:
+                kind, _, ref = p[2].partition("=")
+                if ref:
+                    ref = int(ref)
+                    kind = kind if ref == i else "%s=%d" % (kind, ref - (1 if ref > i else 0))
+                rest.append([p[0], p[1], kind, p[3]])
+            yield emit(rest, decls)
     for i in range(len(pipes)):
         if pipes[i][3]:
             yield emit(pipes[:i] + [pipes[i][:3] + [""]] + pipes[i + 1:], decls)
